@@ -65,6 +65,18 @@ FAULT_CLASSES = {
     "IndexError": InjectedIndexError,
 }
 
+class InjectedUnhashableError(InjectedFault, ValueError):
+    """A user exception class that defines __eq__ and therefore is not hashable (what @dataclass gives an exception)."""
+
+    def __eq__(self, other):
+        return self is other
+
+    __hash__ = None
+
+
+FAULT_CLASSES["UnhashableError"] = InjectedUnhashableError
+
+
 def _more_fault_classes():
     """One injected subclass for every builtin Exception type that admits it (arbitrary exception types)."""
     import builtins
